@@ -150,6 +150,10 @@ type WTx struct {
 	// FreeLeaves: pages up to NewSize that get no frame are free-list leaves the transaction allocated and freed
 	// again (SQLite never writes them); legal only beyond the old size.
 	FreeLeaves bool
+	// Pad (with Outcome "commit"): the commit frame is written Pad more times right behind itself, as SQLite does to
+	// fill the sector when the file system does not promise power-safe overwrite (psow=0) and synchronous=FULL: every
+	// copy is a valid commit frame of the same page and enters the wal-index.
+	Pad int
 }
 
 // WTxResult mirrors RTxResult for WAL programs.
@@ -683,6 +687,24 @@ func (c *Conn) RunWTx(tx WTx, cur *oracle.Image) (res WTxResult) {
 			return
 		}
 		frameNo++
+		if last && commit {
+			for k := 0; k < tx.Pad; k++ {
+				pc0, pc1 := walCk(bo, ck[0], ck[1], fh[:8])
+				pc0, pc1 = walCk(bo, pc0, pc1, content)
+				pfh := append([]byte{}, fh...)
+				binary.BigEndian.PutUint32(pfh[16:], pc0)
+				binary.BigEndian.PutUint32(pfh[20:], pc1)
+				ck = [2]uint32{pc0, pc1}
+				poff := 32 + int64(frameNo)*c.walFrameSize()
+				if err = c.walWrite(fmt.Sprintf("wal write frame %d hdr (padding)", frameNo+1), poff, pfh); err == nil {
+					err = c.walWrite(fmt.Sprintf("wal write frame %d page %d (padding)", frameNo+1, p), poff+24, content)
+				}
+				if c.wfail(&res, "wal frame (padding)", err) {
+					return
+				}
+				frameNo++
+			}
+		}
 	}
 	res.WALSize = 32 + int64(frameNo)*c.walFrameSize() - res.WALOffset
 	if !commit && tx.Torn > 0 {
